@@ -100,12 +100,15 @@ def ws2dwcvp(y, nodata, p, llas, robust, out, lopt):
                 # scale of the residuals of the valid cells that still carry weight
                 carry = w_temp != 0
                 mad = np.median(np.abs(r_arr[carry] - np.median(r_arr[carry])))
-                u_arr = r_arr / (1.4826 * mad * np.sqrt(1 - gamma.sum() / n))
+                # residuals at rounding-noise level (constant or exactly linear data)
+                # carry no information: keep the weights instead of dividing by ~0
+                if mad > 1e-9 * np.max(np.abs(yv)):
+                    u_arr = r_arr / (1.4826 * mad * np.sqrt(1 - gamma.sum() / n))
 
-                r_weights = (1 - (u_arr / 4.685) ** 2) ** 2
-                r_weights[(np.abs(u_arr / 4.685) > 1)] = 0
+                    r_weights = (1 - (u_arr / 4.685) ** 2) ** 2
+                    r_weights[(np.abs(u_arr / 4.685) > 1)] = 0
 
-                r_weights[r_arr > 0] = 1
+                    r_weights[r_arr > 0] = 1
 
             robust_weights = w * r_weights
 
@@ -219,12 +222,15 @@ def _ws2dwcvp(y, w, p, llas, robust):
             # scale of the residuals of the valid cells that still carry weight
             carry = w_temp != 0
             mad = np.median(np.abs(r_arr[carry] - np.median(r_arr[carry])))
-            u_arr = r_arr / (1.4826 * mad * np.sqrt(1 - gamma.sum() / n))
+            # residuals at rounding-noise level (constant or exactly linear data)
+            # carry no information: keep the weights instead of dividing by ~0
+            if mad > 1e-9 * np.max(np.abs(y)):
+                u_arr = r_arr / (1.4826 * mad * np.sqrt(1 - gamma.sum() / n))
 
-            r_weights = (1 - (u_arr / 4.685) ** 2) ** 2
-            r_weights[(np.abs(u_arr / 4.685) > 1)] = 0
+                r_weights = (1 - (u_arr / 4.685) ** 2) ** 2
+                r_weights[(np.abs(u_arr / 4.685) > 1)] = 0
 
-            r_weights[r_arr > 0] = 1
+                r_weights[r_arr > 0] = 1
 
         robust_weights = w * r_weights
 
